@@ -359,6 +359,7 @@ func (r *raftRun) cluster() (*Cluster, error) {
 
 // resetCluster empties every node's dataset through its own state machine (no client path involved).
 func (r *raftRun) resetCluster(c *Cluster) {
+	c.markers = 0
 	for i, n := range c.Nodes {
 		n.Clock.Set(StartMs + clusterClocks[i])
 		n.Apply(0, 2, []string{"flushall"})
@@ -467,6 +468,14 @@ func (r *raftRun) runCluster(s RaftSeq, fresh bool) error {
 			// one per distinct forwarded message (forwarded commands arrive by gossip: bounded wait)
 			target := l0 + uint64(viaRaft+distinctForwards(c, batch, results))
 			timedOut := !c.Quiesce(target, 25*time.Second)
+			// the leader's log now holds what it will hold; a marker written behind it tells when every
+			// node's state machine has got that far
+			mcmd, mres, mok := c.Barrier(25 * time.Second)
+			batch = append(batch, RaftOp{Node: 0, Db: BarrierDb, Cmd: HexCmd(mcmd)})
+			results = append(results, mres)
+			if !mok {
+				timedOut = true
+			}
 			if err := r.qLine(fmt.Sprintf("%s.%d", s.ID, i), c, batch, results, pres, timedOut); err != nil {
 				return err
 			}
@@ -662,6 +671,9 @@ func (r *raftRun) runDisp(role string, seqs []RaftSeq, fresh bool) error {
 	if !c.Quiesce(0, 25*time.Second) {
 		return fmt.Errorf("cluster not quiet before the dispatch rows")
 	}
+	if _, _, ok := c.Barrier(25 * time.Second); !ok {
+		return fmt.Errorf("cluster does not replicate before the dispatch rows")
+	}
 	dirty := true
 	l0 := c.Leader().Inner.LastIndex()
 	forwarded := 0
@@ -698,6 +710,7 @@ func (r *raftRun) runDisp(role string, seqs []RaftSeq, fresh bool) error {
 	}
 	// what was handed to raft or to the gossip layer is let through before the cluster is used again
 	c.Quiesce(l0+uint64(forwarded), 25*time.Second)
+	c.Barrier(25 * time.Second)
 	return nil
 }
 
@@ -769,7 +782,7 @@ func (c cgen) safeWrite(db int) []string {
 	case 14:
 		return []string{"srem", g.Pick([]string{"t1", "t2"}), g.Pick([]string{"a", "b", "c"})}
 	default:
-		return []string{"sunionstore", "t4", "t1", "t2"}
+		return []string{"smove", g.Pick([]string{"t1", "t2"}), "t3", g.Pick([]string{"a", "b", "c"})}
 	}
 }
 
